@@ -9,12 +9,16 @@ def run(rep, tier, seed):
     res2 = tlc.run_tlc("ObserveImpl", "ObserveImpl_%s.cfg" % tier, timeout=5000, workers=8, heap="8g")
     rep.add_tlc("ObserveImpl(refinement, no self-loops)", res2)
     n = oc.run_for(rep, tier, seed, "C09")
+    # several observed objects (two of them equal but distinct) sharing a downstream object: RegCount.tla
+    from . import reg_count
+    reg_count.run_for(rep, tier, seed)
     rep.rule = ("TLC: (a) ObserveMC - laws of the declarative reachability semantics over all heaps of the bound; (b) "
                 "ObserveImpl - the incremental hook maintenance refines the declarative definition on all histories "
                 "without self-loops; (c) %d recorded steps of seeded histories on a real pool of 4 interlinked objects "
                 "(child / kids list / d dict with coercing keys, duplicates, sharing, cycles) under up to 3 registrations "
                 "from a 16-expression catalogue, each step with the handler calls during the change and a reachability "
-                "probe of every object afterwards, judged by TLC against Observe.tla" % n)
+                "probe of every object afterwards, judged by TLC against Observe.tla; (d) registrations made on three observed "
+                "objects sharing one downstream object - two of them equal but distinct - judged against RegCount.tla" % n)
 
 
 def replay(rep, path):
